@@ -1,11 +1,13 @@
 import CJ.Gen.LockTable
 /-!
-# C09 — lockset: shared registry state is only touched under the registry mutex
+# C09 — lockset: shared state is only touched under the mutex that guards it
 
-Decided over `CJ.Gen.lockTable`, which is REGENERATED from `pkg/station/lib/*.go` (go/ast) on every
-run: for each function, the mutex mode it takes, the protected fields it reads/writes
-(`decoys`, `decoysTimeouts`, `Valid`, `regCount`) and the package functions it calls.
-A function that takes no lock itself inherits the weakest mode among all its callers.
+Decided over `CJ.Gen.lockTable`, which is REGENERATED from `pkg/station/lib/*.go` and
+`cmd/application/*.go` (go/ast) on every run: for each function, the mutexes it takes and in which
+mode, the protected fields it reads/writes, and the package functions it calls.  `CJ.Gen.guardOf`
+says which mutex guards which field: the registry mutex `m` (`decoys`, `decoysTimeouts`, `Valid`,
+`regCount`), `reloadMu` (`PhantomSelector`, `GeoIP`) and `policyMu` (the parsed block / allow lists).
+A function that does not take a mutex itself inherits the weakest mode among all its callers.
 -/
 namespace CJ.Props.C09Lockset
 open CJ.Gen
@@ -15,48 +17,63 @@ def LockMode.rank : LockMode → Nat
 
 def minMode (a b : LockMode) : LockMode := if LockMode.rank a ≤ LockMode.rank b then a else b
 
-/-- effective lock mode under which `f`'s body runs: its own, else the weakest among its callers -/
-def effLock (tbl : List FnFacts) : Nat → FnFacts → LockMode
-  | 0, f => f.lock
+def ownMode (f : FnFacts) (mu : String) : LockMode :=
+  match f.locks.find? (fun l => l.1 == mu) with
+  | some l => l.2
+  | none => .none
+
+/-- effective mode in which mutex `mu` is held while `f`'s body runs: its own, else the weakest among
+its callers -/
+def effLock (tbl : List FnFacts) (mu : String) : Nat → FnFacts → LockMode
+  | 0, f => ownMode f mu
   | fuel + 1, f =>
-    if f.lock != .none then f.lock
+    if ownMode f mu != .none then ownMode f mu
     else
       match tbl.filter (fun c => c.calls.contains f.short) with
       | [] => .none
-      | cs => cs.foldl (fun acc c => minMode acc (effLock tbl fuel c)) .W
+      | cs => cs.foldl (fun acc c => minMode acc (effLock tbl mu fuel c)) .W
 
-/-- name collisions of the syntactic extractor: `stats.Valid` in `removeOldRegistrations` is a field
-of the local log-message struct `regExpireLogMsg`, not of a registration -/
+def guardFor (field : String) : String :=
+  match guardOf.find? (fun g => g.1 == field) with
+  | some g => g.2
+  | none => "?"
+
+/-- exemptions, each a reviewed fact about the code:
+* `stats.Valid` in `removeOldRegistrations` is a field of the local log-message struct
+  `regExpireLogMsg`, not of a registration (name collision of the syntactic extractor);
+* `ParseBlocklists` fills the lists of a configuration object that `ParseConfig` has just created and
+  that no other goroutine can reach yet; it becomes shared only through `OnReload`, under `policyMu`. -/
 def exempt (f : FnFacts) (field : String) : Bool :=
-  f.short == "removeOldRegistrations" && field == "Valid"
+  (f.short == "removeOldRegistrations" && field == "Valid") ||
+  (f.short == "ParseBlocklists" && guardFor field == "policyMu")
 
 def rowOk (tbl : List FnFacts) (f : FnFacts) : Bool :=
-  f.writes.all (fun x => exempt f x || effLock tbl 4 f == .W) &&
-  f.reads.all (fun x => exempt f x || effLock tbl 4 f != .none)
+  f.writes.all (fun x => exempt f x || effLock tbl (guardFor x) 4 f == .W) &&
+  f.reads.all (fun x => exempt f x || effLock tbl (guardFor x) 4 f != .none)
 
-/-- **Lockset**: every write to `decoys`, `decoysTimeouts`, `Valid`, `regCount` happens in a function
-that holds — or is only ever called while holding — the write lock; every read under at least the
-read lock. -/
+/-- **Lockset**: every write to a protected field happens in a function that holds — or is only ever
+called while holding — its mutex in write mode; every read under at least the read lock. -/
 theorem protected_fields_locked : ∀ f ∈ lockTable, rowOk lockTable f = true := by
   decide +kernel
 
-/-- does running `f` acquire the registry mutex, itself or through a callee? -/
-def acquires (tbl : List FnFacts) : Nat → FnFacts → Bool
-  | 0, f => f.lock != .none
+/-- does running `f` acquire mutex `mu`, itself or through a callee? -/
+def acquires (tbl : List FnFacts) (mu : String) : Nat → FnFacts → Bool
+  | 0, f => ownMode f mu != .none
   | fuel + 1, f =>
-    f.lock != .none || (tbl.filter (fun c => f.calls.contains c.short)).any (fun c => acquires tbl fuel c)
+    ownMode f mu != .none || (tbl.filter (fun c => f.calls.contains c.short)).any (fun c => acquires tbl mu fuel c)
 
-/-- **No nested acquisition**: a function that holds the registry mutex never calls — directly or
-through other functions — one that acquires it again. With Go's writer-preferring `RWMutex` a nested
+/-- **No nested acquisition**: a function that holds a mutex never calls — directly or through other
+functions — one that acquires the same mutex again. With Go's writer-preferring `RWMutex` a nested
 read lock deadlocks as soon as a writer arrives in between (the defect C13 had), and a nested write
 lock deadlocks at once. -/
-theorem no_nested_acquire : ∀ f ∈ lockTable, f.lock != .none →
-    (lockTable.filter (fun c => f.calls.contains c.short)).all (fun c => !acquires lockTable 3 c) = true := by
+theorem no_nested_acquire : ∀ f ∈ lockTable, ∀ l ∈ f.locks,
+    (lockTable.filter (fun c => f.calls.contains c.short)).all (fun c => !acquires lockTable l.1 3 c) = true := by
   decide +kernel
 
 /-- the table is not empty and contains the functions the property is about (non-vacuity) -/
 theorem table_covers : ∀ n ∈ ["track", "register", "markActive", "removeRegistration", "getRegistrations",
-    "getExpiredRegistrations", "registrationExists"], lockTable.any (fun f => f.short == n) = true := by
+    "getExpiredRegistrations", "registrationExists", "OnReload", "Selector", "GeoIPDatabase",
+    "isBlocklistedCovertAddr", "IsBlocklistedPhantom"], lockTable.any (fun f => f.short == n) = true := by
   decide +kernel
 
 end CJ.Props.C09Lockset
